@@ -152,3 +152,245 @@ Proof.
   destruct pend as [bytes|]; [|reflexivity].
   destruct (write_file (k_fs s2) p bytes None (k_clock s2) (k_nextid s2)); reflexivity.
 Qed.
+
+(* ------------------------------------------------------------------ *)
+(* the run                                                             *)
+(* ------------------------------------------------------------------ *)
+Definition log_free {X} (run : kstate -> kstate * X) : Prop :=
+  forall s s' out, run s = (s', out) ->
+    exists ex, k_log s' = ex ++ k_log s /\
+      forall l, run (with_log l s) = (with_log (ex ++ l) s', out).
+
+Lemma chain : forall X (run : kstate -> kstate * X) s1 pre s s' out,
+  log_free run ->
+  k_log s1 = pre ++ k_log s ->
+  run s1 = (s', out) ->
+  exists ex, k_log s' = ex ++ k_log s /\
+    forall l, run (with_log (pre ++ l) s1) = (with_log (ex ++ l) s', out).
+Proof.
+  intros X run s1 pre s s' out Hf Hl Hr.
+  destruct (Hf _ _ _ Hr) as [ex [E1 E2]].
+  exists (ex ++ pre). split.
+  - rewrite E1, Hl, app_assoc. reflexivity.
+  - intro l. rewrite E2, app_assoc. reflexivity.
+Qed.
+
+Lemma chain0 : forall X (run : kstate -> kstate * X) s1 s s' out,
+  log_free run ->
+  k_log s1 = k_log s ->
+  run s1 = (s', out) ->
+  exists ex, k_log s' = ex ++ k_log s /\
+    forall l, run (with_log l s1) = (with_log (ex ++ l) s', out).
+Proof.
+  intros X run s1 s s' out Hf Hl Hr.
+  exact (chain X run s1 [] s s' out Hf Hl Hr).
+Qed.
+
+Lemma core_run_log_free : forall pr tg pend subs, log_free (core_run pr tg pend subs).
+Proof.
+  induction pr as [v | e | st q k IHk | c k IHk | st p c fname a kw fn IHfn k IHk | st fname a kw fn IHfn k IHk];
+    intros tg pend subs s s' out H.
+  - cbn in H. inversion H; subst. exists []. split; [reflexivity|]. intro l. reflexivity.
+  - cbn in H. inversion H; subst. exists []. split; [reflexivity|]. intro l. reflexivity.
+  - rewrite core_run_Ask in H. destruct st.
+    + destruct (IHk _ _ _ _ _ _ _ H) as [ex [E1 E2]]. exists ex. split; [exact E1|].
+      intro l. rewrite core_run_Ask. apply E2.
+    + cbv zeta in H.
+      destruct (spec_answer (k_fs s) q) as [v|c] eqn:Ha.
+      * destruct (chain _ _ (klog (LAnswer q (inl v)) s) [LAnswer q (inl v)] s _ _ (IHk _ _ _ _) eq_refl H) as [ex [E1 E2]].
+        exists ex. split; [exact E1|]. intro l. rewrite core_run_Ask. cbv zeta.
+        change (k_fs (with_log l s)) with (k_fs s). rewrite Ha. rewrite klog_with_log. apply E2.
+      * destruct (chain _ _ (klog (LAnswer q (inr c)) s) [LAnswer q (inr c)] s _ _ (IHk _ _ _ _) eq_refl H) as [ex [E1 E2]].
+        exists ex. split; [exact E1|]. intro l. rewrite core_run_Ask. cbv zeta.
+        change (k_fs (with_log l s)) with (k_fs s). rewrite Ha. rewrite klog_with_log. apply E2.
+  - rewrite core_run_Write in H. destruct tg as [p|].
+    + destruct (path_ok p) eqn:Hp.
+      * destruct (chain0 _ _ (ktick s) s _ _ (IHk _ _ _) eq_refl H) as [ex [E1 E2]].
+        exists ex. split; [exact E1|]. intro l. rewrite core_run_Write, Hp, ktick_with_log. apply E2.
+      * inversion H; subst. exists []. split; [reflexivity|]. intro l. rewrite core_run_Write, Hp. reflexivity.
+    + destruct (IHk _ _ _ _ _ _ H) as [ex [E1 E2]]. exists ex. split; [exact E1|].
+      intro l. rewrite core_run_Write. apply E2.
+  - rewrite core_run_BuildFile in H. destruct st.
+    { destruct (IHk _ _ _ _ _ _ _ H) as [ex [E1 E2]]. exists ex. split; [exact E1|].
+      intro l. rewrite core_run_BuildFile. apply E2. }
+    destruct (sanitize a) as [sa|] eqn:Ea.
+    2:{ destruct (IHk _ _ _ _ _ _ _ H) as [ex [E1 E2]]. exists ex. split; [exact E1|].
+        intro l. rewrite core_run_BuildFile, Ea. apply E2. }
+    destruct (sanitize kw) as [skw|] eqn:Ek.
+    2:{ destruct (IHk _ _ _ _ _ _ _ H) as [ex [E1 E2]]. exists ex. split; [exact E1|].
+        intro l. rewrite core_run_BuildFile, Ea, Ek. apply E2. }
+    cbv zeta in H.
+    destruct (claim_check (k_claimedF s) (k_cachefile s) p) as [e|] eqn:Ec.
+    { destruct (IHk _ _ _ _ _ _ _ H) as [ex [E1 E2]]. exists ex. split; [exact E1|].
+      intro l. rewrite core_run_BuildFile, Ea, Ek. cbv zeta.
+      change (k_claimedF (with_log l s)) with (k_claimedF s).
+      change (k_cachefile (with_log l s)) with (k_cachefile s). rewrite Ec. apply E2. }
+    destruct (setup_fs (k_fs s) (k_cachefile s) p) as [[fs1 dirs]|e] eqn:Es.
+    2:{ destruct (IHk _ _ _ _ _ _ _ H) as [ex [E1 E2]]. exists ex. split; [exact E1|].
+        intro l. rewrite core_run_BuildFile, Ea, Ek. cbv zeta.
+        change (k_claimedF (with_log l s)) with (k_claimedF s).
+        change (k_cachefile (with_log l s)) with (k_cachefile s).
+        change (k_fs (with_log l s)) with (k_fs s). rewrite Ec, Es. apply E2. }
+    destruct (core_hit s (core_s0 s p fs1 dirs) p fname sa skw) as [[[[f subs'] ret'] r]|] eqn:Eh.
+    + match type of H with core_run _ _ _ _ ?s1 = _ =>
+        destruct (chain0 _ _ s1 s _ _ (IHk _ _ _ _) eq_refl H) as [ex [E1 E2]] end.
+      exists ex. split; [exact E1|].
+      intro l. rewrite core_run_BuildFile, Ea, Ek. cbv zeta.
+      change (k_claimedF (with_log l s)) with (k_claimedF s).
+      change (k_cachefile (with_log l s)) with (k_cachefile s).
+      change (k_fs (with_log l s)) with (k_fs s). rewrite Ec, Es.
+      rewrite core_s0_with_log, core_hit_with_log, Eh, adopt_with_log, core_put_with_log. apply E2.
+    + destruct (core_run (fn p sa skw) (Some p) None [] (core_start (core_s0 s p fs1 dirs) p fname sa skw))
+        as [s2 [[res pend2] bsubs]] eqn:Hfn.
+      destruct (IHfn _ _ _ _ _ _ _ _ _ Hfn) as [ex1 [F1 F2]].
+      rewrite core_start_log in F1. change (k_log (core_s0 s p fs1 dirs)) with (k_log s) in F1.
+      pose proof (core_finish_log s2 p c fname sa skw bsubs res pend2) as L3.
+      destruct (core_finish s2 p c fname sa skw bsubs res pend2) as [[s3 out3] o] eqn:Hfin.
+      cbn [fst snd] in L3.
+      assert (Hl : k_log s3 = (ex1 ++ [LInvoke fname (Some p) sa skw]) ++ k_log s).
+      { rewrite L3, F1, <- app_assoc. reflexivity. }
+      destruct (chain _ _ s3 _ s _ _ (IHk _ _ _ _) Hl H) as [ex [E1 E2]].
+      exists ex. split; [exact E1|].
+      intro l. rewrite core_run_BuildFile, Ea, Ek. cbv zeta.
+      change (k_claimedF (with_log l s)) with (k_claimedF s).
+      change (k_cachefile (with_log l s)) with (k_cachefile s).
+      change (k_fs (with_log l s)) with (k_fs s). rewrite Ec, Es.
+      rewrite core_s0_with_log, core_hit_with_log, Eh, core_start_with_log, F2.
+      rewrite core_finish_with_log, Hfin. cbn [fst snd].
+      rewrite <- E2, <- app_assoc. reflexivity.
+  - rewrite core_run_Subbuild in H. destruct st.
+    { destruct (IHk _ _ _ _ _ _ _ H) as [ex [E1 E2]]. exists ex. split; [exact E1|].
+      intro l. rewrite core_run_Subbuild. apply E2. }
+    destruct (sanitize a) as [sa|] eqn:Ea.
+    2:{ destruct (IHk _ _ _ _ _ _ _ H) as [ex [E1 E2]]. exists ex. split; [exact E1|].
+        intro l. rewrite core_run_Subbuild, Ea. apply E2. }
+    destruct (sanitize kw) as [skw|] eqn:Ek.
+    2:{ destruct (IHk _ _ _ _ _ _ _ H) as [ex [E1 E2]]. exists ex. split; [exact E1|].
+        intro l. rewrite core_run_Subbuild, Ea, Ek. apply E2. }
+    cbv zeta in H.
+    destruct (existsb (py_eq (subbuild_key fname sa skw)) (k_claimedS s)) eqn:Ec.
+    { destruct (IHk _ _ _ _ _ _ _ H) as [ex [E1 E2]]. exists ex. split; [exact E1|].
+      intro l. rewrite core_run_Subbuild, Ea, Ek. cbv zeta.
+      change (k_claimedS (with_log l s)) with (k_claimedS s). rewrite Ec. apply E2. }
+    destruct (core_subhit s fname (subbuild_key fname sa skw)) as [[[subs' ret'] r]|] eqn:Eh.
+    + match type of H with core_run _ _ _ _ ?s1 = _ =>
+        destruct (chain0 _ _ s1 s _ _ (IHk _ _ _ _) eq_refl H) as [ex [E1 E2]] end.
+      exists ex. split; [exact E1|].
+      intro l. rewrite core_run_Subbuild, Ea, Ek. cbv zeta.
+      change (k_claimedS (with_log l s)) with (k_claimedS s). rewrite Ec.
+      rewrite core_subhit_with_log, Eh, adopt_with_log. apply E2.
+    + destruct (core_run (fn sa skw) None None [] (core_substart s fname sa skw))
+        as [s2 [[res pend2] bsubs]] eqn:Hfn.
+      destruct (IHfn _ _ _ _ _ _ _ _ Hfn) as [ex1 [F1 F2]].
+      rewrite core_substart_log in F1.
+      assert (Hl : k_log (core_subreg s2 (subbuild_key fname sa skw) (sub_rec fname sa skw bsubs res))
+                   = (ex1 ++ [LInvoke fname None sa skw]) ++ k_log s).
+      { change (k_log (core_subreg s2 (subbuild_key fname sa skw) (sub_rec fname sa skw bsubs res))) with (k_log s2).
+        rewrite F1, <- app_assoc. reflexivity. }
+      destruct (chain _ _ _ _ s _ _ (IHk _ _ _ _) Hl H) as [ex [E1 E2]].
+      exists ex. split; [exact E1|].
+      intro l. rewrite core_run_Subbuild, Ea, Ek. cbv zeta.
+      change (k_claimedS (with_log l s)) with (k_claimedS s). rewrite Ec.
+      rewrite core_subhit_with_log, Eh, core_substart_with_log, F2.
+      rewrite core_subreg_with_log.
+      rewrite <- E2, <- app_assoc. reflexivity.
+Qed.
+
+(* ------------------------------------------------------------------ *)
+(* the entries pushed are never LEffect                                *)
+(* ------------------------------------------------------------------ *)
+Definition noeff (ex : list logentry) : Prop :=
+  Forall (fun e => match e with LEffect _ _ => False | _ => True end) ex.
+
+Definition log_noeff {X} (run : kstate -> kstate * X) : Prop :=
+  forall s s' out, run s = (s', out) -> exists ex, k_log s' = ex ++ k_log s /\ noeff ex.
+
+Lemma chain_ne : forall X (run : kstate -> kstate * X) s1 pre s s' out,
+  log_noeff run -> noeff pre ->
+  k_log s1 = pre ++ k_log s ->
+  run s1 = (s', out) ->
+  exists ex, k_log s' = ex ++ k_log s /\ noeff ex.
+Proof.
+  intros X run s1 pre s s' out Hf Hp Hl Hr.
+  destruct (Hf _ _ _ Hr) as [ex [E1 E2]].
+  exists (ex ++ pre). split.
+  - rewrite E1, Hl, app_assoc. reflexivity.
+  - apply Forall_app. split; assumption.
+Qed.
+
+Lemma noeff_nil : noeff [].
+Proof. constructor. Qed.
+
+Lemma core_run_log_noeff : forall pr tg pend subs, log_noeff (core_run pr tg pend subs).
+Proof.
+  induction pr as [v | e | st q k IHk | c k IHk | st p c fname a kw fn IHfn k IHk | st fname a kw fn IHfn k IHk];
+    intros tg pend subs s s' out H.
+  - cbn in H. inversion H; subst. exists []. split; [reflexivity|apply noeff_nil].
+  - cbn in H. inversion H; subst. exists []. split; [reflexivity|apply noeff_nil].
+  - rewrite core_run_Ask in H. destruct st; [exact (IHk _ _ _ _ _ _ _ H)|].
+    cbv zeta in H.
+    destruct (spec_answer (k_fs s) q) as [v|c].
+    + refine (chain_ne _ _ (klog (LAnswer q (inl v)) s) [LAnswer q (inl v)] s _ _ (IHk _ _ _ _) _ eq_refl H).
+      repeat constructor.
+    + refine (chain_ne _ _ (klog (LAnswer q (inr c)) s) [LAnswer q (inr c)] s _ _ (IHk _ _ _ _) _ eq_refl H).
+      repeat constructor.
+  - rewrite core_run_Write in H. destruct tg as [p|]; [|exact (IHk _ _ _ _ _ _ H)].
+    destruct (path_ok p).
+    + exact (chain_ne _ _ (ktick s) [] s _ _ (IHk _ _ _) noeff_nil eq_refl H).
+    + inversion H; subst. exists []. split; [reflexivity|apply noeff_nil].
+  - rewrite core_run_BuildFile in H. destruct st; [exact (IHk _ _ _ _ _ _ _ H)|].
+    destruct (sanitize a) as [sa|]; [|exact (IHk _ _ _ _ _ _ _ H)].
+    destruct (sanitize kw) as [skw|]; [|exact (IHk _ _ _ _ _ _ _ H)].
+    cbv zeta in H.
+    destruct (claim_check (k_claimedF s) (k_cachefile s) p) as [e|]; [exact (IHk _ _ _ _ _ _ _ H)|].
+    destruct (setup_fs (k_fs s) (k_cachefile s) p) as [[fs1 dirs]|e]; [|exact (IHk _ _ _ _ _ _ _ H)].
+    destruct (core_hit s (core_s0 s p fs1 dirs) p fname sa skw) as [[[[f subs'] ret'] r]|].
+    + match type of H with core_run _ _ _ _ ?s1 = _ =>
+        exact (chain_ne _ _ s1 [] s _ _ (IHk _ _ _ _) noeff_nil eq_refl H) end.
+    + destruct (core_run (fn p sa skw) (Some p) None [] (core_start (core_s0 s p fs1 dirs) p fname sa skw))
+        as [s2 [[res pend2] bsubs]] eqn:Hfn.
+      destruct (IHfn _ _ _ _ _ _ _ _ _ Hfn) as [ex1 [F1 F2]].
+      rewrite core_start_log in F1. change (k_log (core_s0 s p fs1 dirs)) with (k_log s) in F1.
+      pose proof (core_finish_log s2 p c fname sa skw bsubs res pend2) as L3.
+      destruct (core_finish s2 p c fname sa skw bsubs res pend2) as [[s3 out3] o] eqn:Hfin.
+      cbn [fst snd] in L3.
+      assert (Hl : k_log s3 = (ex1 ++ [LInvoke fname (Some p) sa skw]) ++ k_log s).
+      { rewrite L3, F1, <- app_assoc. reflexivity. }
+      refine (chain_ne _ _ s3 _ s _ _ (IHk _ _ _ _) _ Hl H).
+      apply Forall_app. split; [exact F2|repeat constructor].
+  - rewrite core_run_Subbuild in H. destruct st; [exact (IHk _ _ _ _ _ _ _ H)|].
+    destruct (sanitize a) as [sa|]; [|exact (IHk _ _ _ _ _ _ _ H)].
+    destruct (sanitize kw) as [skw|]; [|exact (IHk _ _ _ _ _ _ _ H)].
+    cbv zeta in H.
+    destruct (existsb (py_eq (subbuild_key fname sa skw)) (k_claimedS s)); [exact (IHk _ _ _ _ _ _ _ H)|].
+    destruct (core_subhit s fname (subbuild_key fname sa skw)) as [[[subs' ret'] r]|].
+    + match type of H with core_run _ _ _ _ ?s1 = _ =>
+        exact (chain_ne _ _ s1 [] s _ _ (IHk _ _ _ _) noeff_nil eq_refl H) end.
+    + destruct (core_run (fn sa skw) None None [] (core_substart s fname sa skw))
+        as [s2 [[res pend2] bsubs]] eqn:Hfn.
+      destruct (IHfn _ _ _ _ _ _ _ _ Hfn) as [ex1 [F1 F2]].
+      rewrite core_substart_log in F1.
+      assert (Hl : k_log (core_subreg s2 (subbuild_key fname sa skw) (sub_rec fname sa skw bsubs res))
+                   = (ex1 ++ [LInvoke fname None sa skw]) ++ k_log s).
+      { change (k_log (core_subreg s2 (subbuild_key fname sa skw) (sub_rec fname sa skw bsubs res))) with (k_log s2).
+        rewrite F1, <- app_assoc. reflexivity. }
+      refine (chain_ne _ _ _ _ s _ _ (IHk _ _ _ _) _ Hl H).
+      apply Forall_app. split; [exact F2|repeat constructor].
+Qed.
+
+Theorem core_log_noeffect : forall pr tg pend subs s s' out,
+  core_run pr tg pend subs s = (s', out) ->
+  exists ex, k_log s' = ex ++ k_log s /\ Forall (fun e => match e with LEffect _ _ => False | _ => True end) ex.
+Proof. intros pr tg pend subs s s' out H. exact (core_run_log_noeff pr tg pend subs s s' out H). Qed.
+
+Print Assumptions core_log_noeffect.
+
+Theorem core_log : core_log_statement.
+Proof.
+  intros pr tg pend subs s l0 s' out H l1.
+  destruct (core_run_log_free pr tg pend subs _ _ _ H) as [ex [E1 E2]].
+  exists ex. split; [exact E1|].
+  specialize (E2 l1). rewrite with_log_idem in E2. exact E2.
+Qed.
+
+Print Assumptions core_log.
